@@ -31,9 +31,9 @@ ASSUMPTIONS = [
 ]
 FLOORS = {"quick": {"evaluations": 2500, "onboard_carried_out": 30, "onboard_refused": 400,
                     "unlock_sent": 60, "pin_changes_sent": 60, "pubkey_files_checked": 20},
-          "thorough": {"evaluations": 20000, "onboard_carried_out": 500, "onboard_refused": 3000,
-                       "unlock_sent": 1500, "pin_changes_sent": 800,
-                       "pubkey_files_checked": 300}}
+          "thorough": {"evaluations": 40000, "onboard_carried_out": 400, "onboard_refused": 20000,
+                       "unlock_sent": 250, "pin_changes_sent": 1000,
+                       "pubkey_files_checked": 150}}
 EXHAUSTIVE = {"quick": False, "thorough": True}
 
 PINS = {"valid": "abcd1234", "valid2": "Zz345678", "short": "abc1234", "long": "abcd12345",
@@ -145,6 +145,8 @@ def cells(spec):
         keep = [c for c in out if promising(c) and (c[0] != "onboard" or rng.random() < 0.6)]
         rest = [c for c in out if not promising(c)]
         out = keep + rng.sample(rest, 2600)
+    if spec["tier"] == "thorough":
+        out = out * 4       # every cell on four different devices / seeds
     return [c for i, c in enumerate(out) if i % spec["n"] == spec["shard"]]
 
 
